@@ -106,10 +106,37 @@ func TestEjectionCap(t *testing.T) {
 		for i := range addrs {
 			addrs[i] = fmt.Sprintf("10.0.%d.%d:80", i/250, i%250)
 		}
-		capped := false
+		capped, reloads := false, 0
 		n := rapid.IntRange(1, 40).Draw(t, "n")
 		for i := 0; i < n; i++ {
 			hx.C.AddMs(uint64(rapid.SampledFrom([]int{0, 1, 5, 10, 100, 500, 1000}).Draw(t, "dt")))
+			if rapid.IntRange(0, 11).Draw(t, "reload") == 0 {
+				// the resource's rule is reloaded with another retry timeout and threshold (statistic parameters unchanged): every
+				// node's breaker is replaced by a closed one for the new rule that keeps the node's window; the latest rule gates
+				reloads++
+				prevRetry, prevThr := mr.RetryTimeoutMs, mr.Threshold
+				mr.RetryTimeoutMs = uint64(rapid.SampledFrom([]int{10, 100, 1000, 50}).Draw(t, "retry2"))
+				if st == model.ErrorCount {
+					mr.Threshold = float64(rapid.IntRange(1, 3).Draw(t, "thr2"))
+				} else {
+					mr.Threshold = rapid.SampledFrom([]float64{0.3, 0.5, 1}).Draw(t, "ratio2")
+				}
+				r2 := *rule
+				inner := *rule.Rule
+				inner.RetryTimeoutMs, inner.Threshold = uint32(mr.RetryTimeoutMs), mr.Threshold
+				r2.Rule = &inner
+				changed, err := outlier.LoadRuleOfResource(res, &r2)
+				if err != nil {
+					t.Fatalf("reload: %v", err)
+				}
+				if changed && (mr.RetryTimeoutMs != prevRetry || mr.Threshold != prevThr) { // an equal circuit rule keeps every node's breaker as it is
+					for a, m := range nodes {
+						nodes[a] = m.Rebuilt(mr)
+					}
+				}
+				rule = &r2
+				c.Op("reload #%d: retry=%d threshold=%v (changed=%v)", reloads, mr.RetryTimeoutMs, mr.Threshold, changed)
+			}
 			now := hx.C.Ms()
 			e, blk := sentinel.Entry(res, sentinel.WithSlotChain(chain))
 			if blk != nil {
@@ -189,6 +216,7 @@ func TestEjectionCap(t *testing.T) {
 		}
 		c.ClassIf(capped, "cap-binds(>=2 rejecting > floor)")
 		c.ClassIf(active, "active-recovery")
+		c.ClassIf(reloads > 0, "rule-reloaded-with-other-breaker-parameters-mid-history")
 		c.ClassIf(idleChecked, "idle-service-asked-right-after-a-report-with-ejections")
 		if capped {
 			c.NonTrivial()
